@@ -496,4 +496,116 @@ Proof.
   f_equal; [ring|]. f_equal; [ring|]. f_equal. ring.
 Qed.
 
+(* ================================================================== *)
+(* 3. signed axis permutations                                          *)
+(* ================================================================== *)
+Definition sg (n : nat) : F := fpow (fopp K (f1 K)) n.
+Lemma sg_S n : sg (S n) = - sg n.
+Proof. unfold sg. cbn [FNum.fpow]. ring. Qed.
+Lemma sg_SS n : sg (S (S n)) = sg n.
+Proof. rewrite !sg_S. ring. Qed.
+Lemma sg_sq n : sg n * sg n = 1.
+Proof. induction n as [|n IH]; [unfold sg; cbn [FNum.fpow]; ring|]. rewrite sg_S.
+  transitivity (sg n * sg n); [ring|exact IH]. Qed.
+
+(* odd moments of the centred Gaussian vanish *)
+Lemma mom_parity v : forall n, mom K v n = sg n * mom K v n /\ mom K v (S n) = sg (S n) * mom K v (S n).
+Proof.
+  induction n as [|n [IH1 IH2]].
+  - split; [unfold sg; cbn [FNum.fpow]; rewrite mom_0; ring|rewrite mom_1; ring].
+  - split; [exact IH2|]. rewrite mom_SS, sg_SS. rewrite IH1 at 1. ring.
+Qed.
+
+(* reflection of the axis: all three linear factors change sign *)
+Theorem S3_parity v a b c : forall k i j n,
+  S3 K v (- a) (- b) (- c) n k i j = sg (n + k + i + j) * S3 K v a b c n k i j.
+Proof.
+  induction k as [|k IHk].
+  - induction i as [|i IHi].
+    + induction j as [|j IHj]; intros n.
+      * unfold S3, g3. cbn [plin_pow Eaux]. rewrite !Nat.add_0_r.
+        destruct (mom_parity v n) as [E _]. rewrite E at 1. ring.
+      * rewrite (S3_Sj K Kf v (- a) (- b) (- c)), (S3_Sj K Kf v a b c), (IHj n), (IHj (S n)).
+        replace (n + 0 + 0 + S j)%nat with (S (n + 0 + 0 + j)) by lia.
+        replace (S n + 0 + 0 + j)%nat with (S (n + 0 + 0 + j)) by lia.
+        rewrite sg_S. ring.
+    + intros j n.
+      rewrite (S3_Si K Kf v (- a) (- b) (- c)), (S3_Si K Kf v a b c), (IHi j n), (IHi j (S n)).
+      replace (n + 0 + S i + j)%nat with (S (n + 0 + i + j)) by lia.
+      replace (S n + 0 + i + j)%nat with (S (n + 0 + i + j)) by lia.
+      rewrite sg_S. ring.
+  - intros i j n.
+    rewrite (S3_Sk K Kf v (- a) (- b) (- c)), (S3_Sk K Kf v a b c), (IHk i j n), (IHk i j (S n)).
+    replace (n + S k + i + j)%nat with (S (n + k + i + j)) by lia.
+    replace (S n + k + i + j)%nat with (S (n + k + i + j)) by lia.
+    rewrite sg_S. ring.
+Qed.
+
+Theorem T3_parity v a b c k i j :
+  T3 K v (- a) (- b) (- c) k i j = sg (k + i + j) * T3 K v a b c k i j.
+Proof. unfold T3. apply (S3_parity v a b c k i j 0%nat). Qed.
+
+Section ParityAxis.
+Variables (Ax Bx Cx alpha beta : F) (la lb : nat).
+Hypothesis Hp : psum K alpha beta <> 0.
+Hypothesis H2 : 1 + 1 <> 0.
+
+Lemma PA_neg : PA K (- Ax) (- Bx) alpha beta = - PA K Ax Bx alpha beta.
+Proof. unfold PA, Pw, psum in *. field. exact Hp. Qed.
+Lemma PB_neg : PB K (- Ax) (- Bx) alpha beta = - PB K Ax Bx alpha beta.
+Proof. unfold PB, Pw, psum in *. field. exact Hp. Qed.
+Lemma PC_neg : PC K (- Ax) (- Bx) (- Cx) alpha beta = - PC K Ax Bx Cx alpha beta.
+Proof. unfold PC, Pw, psum in *. field. exact Hp. Qed.
+(* the argument of the exponential is unchanged *)
+Lemma base_neg : base K (- Ax) (- Bx) alpha beta = base K Ax Bx alpha beta.
+Proof. unfold base. replace ((- Ax - - Bx) * (- Ax - - Bx)) with ((Ax - Bx) * (Ax - Bx)) by ring.
+  reflexivity. Qed.
+
+(* the moment table of the reflected axis: entry (k, j, i) picks up (-1)^(k+i+j) *)
+Theorem table_parity km k j i : (k <= km)%nat -> (j <= lb)%nat -> (i <= la)%nat ->
+  nth3 K k j i (table K (- Ax) (- Bx) (- Cx) alpha beta la lb km)
+  = sg (k + i + j) * nth3 K k j i (table K Ax Bx Cx alpha beta la lb km).
+Proof.
+  intros Hk Hj Hi. rewrite !(table_correct K Kf) by assumption.
+  rewrite PA_neg, PB_neg, PC_neg, base_neg, T3_parity. ring.
+Qed.
+
+(* the derivative tables: differentiating flips the parity once more *)
+Lemma Sfun_neg i j : Sfun K (- Ax) (- Bx) alpha beta i j = sg (i + j) * Sfun K Ax Bx alpha beta i j.
+Proof.
+  unfold Sfun. rewrite PA_neg, PB_neg, base_neg.
+  replace 0 with (- 0) at 1 by ring. rewrite T3_parity. cbn [Nat.add]. ring.
+Qed.
+
+Lemma negA_parity (T T' : nat -> nat -> F) k :
+  (forall i j, T' i j = sg (k + i + j) * T i j) ->
+  forall i j, negA K alpha T' i j = sg (S k + i + j) * negA K alpha T i j.
+Proof.
+  intros H i j. unfold negA. rewrite !H.
+  replace (k + S i + j)%nat with (S (k + i + j)) by lia.
+  replace (S k + i + j)%nat with (S (k + i + j)) by lia.
+  destruct i as [|i'].
+  - cbn [ofnat]. ring.
+  - replace (S i' - 1)%nat with i' by lia.
+    replace (k + S i' + j)%nat with (S (k + i' + j)) by lia.
+    rewrite !sg_S. ring.
+Qed.
+
+Lemma iter_negA_parity k : forall i j,
+  iterop (negA K alpha) k (Sfun K (- Ax) (- Bx) alpha beta) i j
+  = sg (k + i + j) * iterop (negA K alpha) k (Sfun K Ax Bx alpha beta) i j.
+Proof.
+  induction k as [|k IH]; intros i j.
+  - cbn [iterop Nat.add]. apply Sfun_neg.
+  - cbn [iterop]. apply (negA_parity _ _ k IH).
+Qed.
+
+Theorem dtable_parity D k j i : (k <= D)%nat -> (j <= lb)%nat -> (i <= la)%nat ->
+  nth3 K k j i (dtable K (- Ax) (- Bx) alpha beta la lb D)
+  = sg (k + i + j) * nth3 K k j i (dtable K Ax Bx alpha beta la lb D).
+Proof.
+  intros Hk Hj Hi. rewrite !(diffop_slice_valid K Kf) by assumption. apply iter_negA_parity.
+Qed.
+End ParityAxis.
+
 End Rigid.
